@@ -9,7 +9,7 @@ SUBJ = {
  "F5": "a filter applied to a struct after `this`",
  "F6": "the error for a malformed data file panicked",
  "F7": "data that is not a well formed document was accepted",
- "F8": "the CloudFormation console reporter hit unreachable!()",
+ "F8": "the CloudFormation console reporter hit unreachable!() for failures outside of resources",
  "F9": "a regular expression that hits the engine's backtracking limit",
  "F10": "reporting a failed check on a literal variable hit unreachable!()",
  "F11": "a rule that refers to itself overflowed the stack",
